@@ -21,6 +21,7 @@ var c16BerTags = []struct {
 	{0x03, "bit_string", "bits", "bytes"},
 	{0x04, "octet_string", "raw", "bytes"},
 	{0x05, "null", "null", "scalar"},
+	{0x09, "real", "real", "scalar"},
 	{0x0c, "utf8_string", "utf8", "scalar"},
 	{0x10, "sequence", "constructed", "array"},
 	{0x11, "set", "constructed", "array"},
@@ -31,7 +32,7 @@ var c16BerTags = []struct {
 func (x *c16) asn1() *c16Format {
 	f := &c16Format{Name: "asn1_ber", Pkg: "format/asn1", Syms: map[string]map[string]bool{"class": {}, "tag": {}}}
 	rl := x.r.Rule("C16.asn1.length", "asn1_ber: the length octets are one U8; bit 8 clear = short form (the low 7 bits), 0x80 = indefinite, otherwise the low 7 bits count the following length bytes; the value signalling `indefinite` is not a possible short-form length; content is limited to length*8 bits; the member loop of an indefinite-length value looks for the 00 00 end-of-contents octets and exactly those 16 bits are consumed after it", 8)
-	rr := x.r.Rule("C16.asn1.row", "asn1_ber: identifier octet is U2 class + U1 form + tag; universal tags boolean/integer/bit string/octet string/null/utf8/printable/ia5/sequence/set have their X.690 numbers, a Sym, and an arm reading the content as X.690 says (length bytes; boolean 0 -> false, else true; integers above 8 octets through the big-integer reader; bit string = unused-bit count + 8*(length-1)-unused bits); the tag number is U5 or, for 31, base-128 digits", 16)
+	rr := x.r.Rule("C16.asn1.row", "asn1_ber: identifier octet is U2 class + U1 form + tag; universal tags boolean/integer/bit string/octet string/null/real/utf8/printable/ia5/sequence/set have their X.690 numbers, a Sym, and an arm reading the content as X.690 says (length bytes; boolean 0 -> false, else true; integers above 8 octets through the big-integer reader; bit string = unused-bit count + 8*(length-1)-unused bits); the tag number is U5 or, for 31, base-128 digits; a binary REAL is sign, base, scaling factor, exponent format with 1/2/3 or an explicit count of exponent octets", 17)
 
 	root := x.decodeRootOf(f.Pkg)
 	if root == nil {
@@ -310,6 +311,10 @@ func (x *c16) asn1() *c16Format {
 			case "utf8":
 				if len(ard) != 1 || ard[0].Kind != "UTF8" || !ard[0].Bits.eq(len8) || ard[0].Field != "value" {
 					msg = "expected length bytes of text named value, found " + c16OpsStr(ard)
+				}
+			case "real":
+				if len(arm) > 0 {
+					msg = x.asn1Real(body, arm, bopt)
 				}
 			case "null":
 				vs := c16Find(aops, "ValAny")
